@@ -151,3 +151,132 @@ def bounded_connect_helpers(tier, seed):
 def _bound(ms, md):
     return (f"0..{ms} sources x 1..{md} distinct destinations x (evenly | max_connects in 1, 2, 3, inf with enough capacity) x EVERY outcome "
             f"of random.randint / random.shuffle; connect_many_to_one for 0..3 sources given as list / tuple / generator / iterator / filter / dict keys")
+
+
+# ------------------------------------------------------------------ native replay / small-scope search of the contracts
+def check_case(fn, ns, nd, evenly=True, mc=None, max_runs=200000):
+    """run the REAL function `fn` (one of connect_many_to_one, connect_randomly, _connect_evenly, _connect_randomly) for ns sources
+    and nd distinct destinations under EVERY outcome of random.randint / random.shuffle and evaluate the contract's statements
+    natively -> (holds, description of the first failing run)"""
+    import random
+    import mosaik.util as U
+    real_randint, real_shuffle = random.randint, random.shuffle
+    perms_cache = {}
+    inf = float("inf")
+    try:
+        if fn == "connect_many_to_one":
+            for ar in (False, True):
+                for kind, make in (("list", list), ("tuple", tuple), ("generator", lambda xs: (x for x in xs))):
+                    rec = _Recorder()
+                    names = [f"s{i}" for i in range(ns)]
+                    try:
+                        r = U.connect_many_to_one(rec, make(names), "d", "a", ("b", "c"), async_requests=ar)
+                    except Exception as e:  # noqa: BLE001
+                        return False, f"connect_many_to_one(<{kind} of {names}>, 'd', async_requests={ar}) raised {type(e).__name__}: {e}"
+                    exp = [(s_, "d", ("a", ("b", "c")), {"async_requests": ar}) for s_ in names]
+                    if rec.calls != exp or r is not None:
+                        return False, f"connect_many_to_one(<{kind} of {names}>, 'd', async_requests={ar}) made {rec.calls}, expected {exp}"
+            return True, "connect_many_to_one ok"
+
+        def run(ch):
+            def randint(a, b):
+                if b < a:
+                    raise ValueError("empty range for randrange()")
+                return a + ch.choose(b - a + 1)
+
+            def shuffle(lst):
+                n = len(lst)
+                if n not in perms_cache:
+                    perms_cache[n] = list(itertools.permutations(range(n)))
+                p = perms_cache[n][ch.choose(len(perms_cache[n]))]
+                lst[:] = [lst[i] for i in p]
+            random.randint, random.shuffle = randint, shuffle
+            U.random.randint, U.random.shuffle = randint, shuffle
+            rec = _Recorder()
+            src = [f"s{i}" for i in range(ns)]
+            dest = [f"d{i}" for i in range(nd)]
+            dest_arg = list(dest)
+            try:
+                if fn == "connect_randomly":
+                    kw = {} if evenly else {"evenly": False, "max_connects": mc}
+                    ret = U.connect_randomly(rec, src, dest_arg, "a", ("b", "c"), **kw)
+                elif fn == "_connect_evenly":
+                    ret = U._connect_evenly(rec, src, dest_arg, "a", ("b", "c"))
+                else:
+                    ret = U._connect_randomly(rec, src, dest_arg, "a", ("b", "c"), max_connects=mc)
+                err = None
+            except Exception as e:   # noqa: BLE001
+                ret, err = None, e
+            return rec, src, dest, dest_arg, ret, err
+
+        is_even = evenly if fn == "connect_randomly" else (fn == "_connect_evenly")
+        expect_assert = (nd == 0 and fn == "connect_randomly") or (not is_even and nd >= 1 and ns > nd * mc)
+        runs = 0
+        for (rec, src, dest, dest_arg, ret, err), taken in _all_runs(run):
+            runs += 1
+            if runs > max_runs:
+                break
+            what = f"{fn}({ns} sources, {nd} destinations, evenly={is_even}, max_connects={mc}) with random choices {taken}"
+            if expect_assert:
+                if not isinstance(err, AssertionError):
+                    return False, f"{what}: AssertionError expected, got {err!r} / {len(rec.calls)} connections"
+                continue
+            if err is not None:
+                return False, f"{what}: raised {type(err).__name__}: {err}"
+            problems = []
+            if [c[0] for c in rec.calls] != src:
+                problems.append(f"not every source connected exactly once, in order: {[(c[0], c[1]) for c in rec.calls]}")
+            if any(c[1] not in dest for c in rec.calls):
+                problems.append("connected to something outside the destination set")
+            if any(c[2] != ("a", ("b", "c")) or c[3] for c in rec.calls):
+                problems.append("attribute pairs not passed on unchanged")
+            cnt = {d: sum(1 for c in rec.calls if c[1] == d) for d in dest}
+            if cnt and is_even and max(cnt.values()) - min(cnt.values()) > 1:
+                problems.append(f"connections per destination differ by more than one: {cnt}")
+            if cnt and not is_even and max(cnt.values()) > mc:
+                problems.append(f"a destination received more than max_connects={mc}: {cnt}")
+            if not isinstance(ret, set) or ret != {d for d, n in cnt.items() if n > 0}:
+                problems.append(f"returned {ret!r} is not the set of connected destinations {cnt}")
+            if fn == "connect_randomly" and dest_arg != dest:
+                problems.append(f"the caller's destination list was modified: {dest_arg}")
+            if problems:
+                return False, what + ": " + "; ".join(problems)
+        return True, f"{fn}({ns}, {nd}, evenly={is_even}, max_connects={mc}): {runs} runs ok"
+    finally:
+        random.randint, random.shuffle = real_randint, real_shuffle
+        U.random.randint, U.random.shuffle = real_randint, real_shuffle
+
+
+def case_of_model(fn, m):
+    """map a counter-model of the contract (or a search case) to (ns, nd, evenly, mc); None if too large to enumerate"""
+    if "case" in m:
+        return m["case"]
+    ns = (m.get("src") or {}).get("len")
+    nd = (m.get("dest0") or {}).get("len")
+    if not isinstance(ns, int) or not isinstance(nd, int):
+        return None
+    mc = float("inf") if m.get("inf") else m.get("max_connects")
+    ev = bool(m.get("evenly", fn == "_connect_evenly"))
+    if fn in ("_connect_randomly",) or (fn == "connect_randomly" and not ev):
+        if not isinstance(mc, (int, float)):
+            return None
+    if ns > 5 or nd > 4 or ns < 0 or nd < 0:
+        return None
+    return [ns, nd, ev, mc]
+
+
+def search_cases(fn, budget):
+    if fn == "connect_many_to_one":
+        for ns in range(0, 4):
+            yield {"case": [ns, 1, True, None]}
+        return
+    lo = 0 if fn == "connect_randomly" else 1
+    for ns in range(0, 5):
+        for nd in range(lo, 4):
+            if fn in ("connect_randomly", "_connect_evenly"):
+                yield {"case": [ns, nd, True, None]}
+            if fn in ("connect_randomly", "_connect_randomly"):
+                for mc in (1, 2, 3, 0, float("inf")):
+                    if mc == 0 and ns > 1:
+                        continue
+                    yield {"case": [ns, nd, False, mc]}
